@@ -85,6 +85,15 @@ class Geom(object):
             del o["max-line-length"]
             o["line-numbers-left-format"] = "{nm:^4}\uff5c"
             o["line-numbers-right-format"] = "{np:^4}\uff5c"
+        if self.mll == "asym-gutter":
+            # gutters of different widths: each panel wraps at its own text width
+            del o["max-line-length"]
+            o["line-numbers-left-format"] = "{nm:^4}\uff5c"
+            o["line-numbers-right-format"] = "{np:^8}\uff5c"
+        if self.mll == "asym-gutter-left":
+            del o["max-line-length"]
+            o["line-numbers-left-format"] = "{nm:^8}\uff5c"
+            o["line-numbers-right-format"] = "{np:^4}\uff5c"
         if self.mll == "wide-gutter-plain":
             # ... and as the whole gutter: a format string without placeholder
             del o["max-line-length"]
@@ -351,8 +360,13 @@ def geometries(tier):
     for W in ([24, 40] if tier == "quick" else [22, 24, 40, 41]):
         gs.append(Geom(W, "unlimited", DEFAULT_SYM, 37, False, "spaces", mll="wide-gutter"))
         gs.append(Geom(W, "2", DEFAULT_SYM, 37, False, "spaces", mll="wide-gutter"))
+    asym = []
+    for W in ([28, 30] if tier == "quick" else [28, 29, 30, 32, 40]):
+        for wrap in ("2", "unlimited"):
+            asym.append(Geom(W, wrap, DEFAULT_SYM, 37, False, "spaces", mll="asym-gutter"))
+            asym.append(Geom(W, wrap, DEFAULT_SYM, 37, False, "spaces", mll="asym-gutter-left"))
     # with markers kept one more column is needed
-    return [g for g in gs if (g.W // 2 - 6 - (1 if g.markers else 0)) >= 3]
+    return [g for g in gs if (g.W // 2 - 6 - (1 if g.markers else 0)) >= 3] + asym
 
 
 def run_plain_gutter(task):
